@@ -311,6 +311,8 @@ def run_reads(case):
                                            "fed": bytes(rec["hashers"][0].fed)})
                 elif op == "d":
                     chunks.append(stream.read())  # no argument: the default n=-1
+                elif op == "n":
+                    chunks.append(stream.read(None))  # io convention: None = everything (plain class only)
                 else:
                     chunks.append(stream.read(op))
             obs.update(status="ok", chunks=chunks, total=stream.total_read, digest=stream.hash_value)
@@ -405,7 +407,7 @@ def judge(case, obs):
         return [(f"C14:unexpected-exception:{obs['exc']}", f"{kind} with {name!r} raised {obs['exc']}")]
     if obs["status"] == "assert":
         legacy = is_legacy(case)
-        small = (kind == "reads" and any(n != "q" and (n == "d" or n < 512) for n in ops_of(case))) or \
+        small = (kind == "reads" and any(n != "q" and (n in ("d", "n") or n < 512) for n in ops_of(case))) or \
             (kind == "drive" and case["chunk"] is not None and case["chunk"] < 512)
         if not (legacy and small):
             out.append(("C14:spurious-assertion", f"{kind} with {name!r} raised AssertionError although "
@@ -560,6 +562,8 @@ def gen_reads(ctx, k):
                 ns.insert(rng.randrange(len(ns) + 1), rng.choice([0, 1, 511, -1]))
         else:
             n = rng.choice([0, 1, 2, 100, 511, 512, 513, 1023, 1024, 1025, 1400])
+            if ctx.tier == "quick" and n > 513 and rng.random() < 0.6:
+                n = rng.choice([17, 60, 300])  # the plain class is size-agnostic: keep Coq literals small
             small = n <= 100
             sizes = [-1, 0, 1, 2, 7, 511, 512, 513, 1024, 4096] if small else [-1, 0, 7, 100, 511, 512, 513, 1024, 4096]
             ns = [rng.choice(sizes) for _ in range(rng.randint(1, 8))]
@@ -569,6 +573,8 @@ def gen_reads(ctx, k):
         for _ in range(rng.choice([0, 1, 1, 2, 2, 3])):
             ops.insert(rng.randrange(len(ops) + 1), "q")
         cuts = [rng.choice([1, 3, 200, 512, 600, 10**6]) for _ in range(rng.randint(0, 3))] if rng.random() < 0.4 else []
+        if ctx.tier == "quick" and n > 1100:
+            n = 1030  # still three reads of 512; the long ones are left to the thorough tier
         case.update(style=style, content=gen_content(rng, style, n).hex(), cuts=cuts, ops=ops)
         out.append(case)
     return out
@@ -593,7 +599,7 @@ def gen_drive(ctx, k):
             else:
                 base = chunk if 0 < chunk <= 1024 else 512
                 n = rng.choice([0, 1, 100, base - 1, base, base + 1, 2 * base, 2 * base + 1, 511, 512, 513, 1300])
-        n = min(n, 2100)
+        n = min(n, 2100 if ctx.tier != "quick" else 1100)
         cuts = [rng.choice([1, 5, 300, 512, 700, 10**6]) for _ in range(rng.randint(0, 3))] if rng.random() < 0.35 else []
         out.append({"kind": "drive", "name": name, "style": style, "content": gen_content(rng, style, n).hex(),
                     "cuts": cuts, "chunk": chunk})
@@ -704,6 +710,7 @@ def audit_cases():
             R(alg, ctor, text, [0, "q", 7, 0, "q", 100, 0, "q"], ["read(0)@start", "read(0)@middle", "read(0)@end"])
             R(alg, ctor, text, [1, 1, "q", -1, "q", -1], ["read(1)", "read(-1)", "read(-1)@eof"])
             R(alg, ctor, text, ["d", "q", "d"], ["read()-no-argument"])
+            R(alg, ctor, text, [3, "q", "n", "q", "n"], ["read(None)"])
             R(alg, ctor, text, [21, "q", 4096], ["read(n>len)"])
             R(alg, ctor, b"", [0, "q", 5, "d", -1, "q"], ["content:empty", "read(0)@start"])
     for ctor in ("Dos2UnixHashStreamFile", "get_hash_stream"):
@@ -779,6 +786,8 @@ def op_dims(case):
                 out.add("read(0)@" + ("start" if j == 0 else "end" if j == len(rs) - 1 else "middle"))
             elif o == "d":
                 out.add("read()-no-argument")
+            elif o == "n":
+                out.add("read(None)")
             elif o == -1:
                 out.add("read(-1)")
             elif o == 1:
@@ -847,6 +856,22 @@ def run_entrypoints(ctx, dims):
                 return h.hexdigest()
             note("entry:get_hasher", {"kind": "entry", "entry": "get_hasher", "name": alg, "content": cname},
                  guarded(go), ref_digest(alg, data), f"get_hasher({alg!r}) fed in two updates")
+    import io
+
+    for cname, data in samples.items():
+        want = ref_digest("md5", data)
+        case = {"kind": "entry", "name": "(omitted: default md5)", "content": cname}
+
+        def via_stream(make, data=data):
+            st = make(io.BytesIO(data))
+            got = st.read(7) + st.read()
+            return (st.hash_value, st.hash_name, got == data, st.total_read)
+        note("name:omitted(default)", {**case, "entry": "fobj_md5(fobj)"}, guarded(lambda: H.fobj_md5(io.BytesIO(data))), want,
+             "fobj_md5 with every default")
+        note("name:omitted(default)", {**case, "entry": "HashStreamFile(fobj)"}, guarded(lambda: via_stream(H.HashStreamFile)),
+             (want, "md5", True, len(data)), "HashStreamFile with the default algorithm")
+        note("name:omitted(default)", {**case, "entry": "get_hash_stream(fobj)"}, guarded(lambda: via_stream(H.get_hash_stream)),
+             (want, "md5", True, len(data)), "get_hash_stream with the default algorithm")
     root = ctx.fresh("entry")
     names = ["md5", "sha256", "blake3", D2U] + FALLBACK[:1]
     for cname, data in samples.items():
@@ -957,8 +982,8 @@ def run(ctx):
     dims = ctx.extra.setdefault("input_dimensions", {})
 
     # ---- streams with explicit read sequences, the chunked driver
-    reads = [c for c in corpus if c["kind"] == "reads"] + a_reads + gen_reads(ctx, ctx.n(70, 1000))
-    drives = [c for c in corpus if c["kind"] == "drive"] + a_drives + gen_drive(ctx, ctx.n(70, 1000))
+    reads = [c for c in corpus if c["kind"] == "reads"] + a_reads + gen_reads(ctx, ctx.n(50, 1000))
+    drives = [c for c in corpus if c["kind"] == "drive"] + a_drives + gen_drive(ctx, ctx.n(50, 1000))
     items_r, items_d, digests_d = [], [], []
     for case in reads:
         obs = run_reads(case)
@@ -968,7 +993,7 @@ def run(ctx):
                 "Dos2UnixHashStreamFile": "DirectDos2Unix"}[case.get("ctor", "get_hash_stream")]
         inp = "(%s, %s, %s, %s, %s)" % (ctor, cbytes(case["name"]), cbytes(content_of(case)),
                                           clist([str(c) for c in case["cuts"]]),
-                                          clist(["SQuery" if o == "q" else f"SRead {cZ(-1 if o == 'd' else o)}" for o in ops_of(case)]))
+                                          clist(["SQuery" if o == "q" else f"SRead {cZ(-1 if o in ('d', 'n') else o)}" for o in ops_of(case)]))
         items_r.append((case, inp, vL([sel, body])))
     for case in drives:
         obs = run_drive(case)
